@@ -141,4 +141,13 @@ theorem tarRead_archive (es : List (Bytes × Bytes)) (hes : ∀ e ∈ es, EntryO
     tarRead fuel (tarArchive es) = .ok (es, true) :=
   _root_.Peppi.tarRead_archive es hes fuel hf
 
+/- from `Peppi.SlppBytes` -/
+theorem slppRead_written_json (C : Codec KVs) (T : TextOracle) (g : PGame KVs) (startBytes : Bytes) (endBytes : Option Bytes)
+    (hstart : gameStart T startBytes = .ok g.start)
+    (hend : endBytes.map gameEnd = g.fend.map Res.ok)
+    (hgecko : ∀ c, g.gecko = some c → c.2 < 2 ^ 32)
+    (hs : SizesOK C.withJsonMeta g startBytes endBytes) (skip : Bool) :
+    slppRead C.withJsonMeta T skip (slppWrite C.withJsonMeta g startBytes endBytes) = .ok (if skip then { g with frames := none } else g) :=
+  _root_.Peppi.slppRead_written_json C T g startBytes endBytes hstart hend hgecko hs skip
+
 end Peppi.Props.C02
